@@ -80,6 +80,30 @@ def po_aave_change(S):
     _run(S, lambda: raw_state(w), lambda: w.market.change_collateral(w.op, f))
 
 
+@proof("C04", "aave/rejected-call-leaves-the-OBSERVABLE-positions-intact(views-read-through-the-market)", strength="S",
+       shapes={k: [dict(s, closed=False) for s in v if s["op"] in s["supplies"]] for k, v in AAVE_SHAPES.items()}, contracts=AAVE_CONTRACTS, covers=("rejected",),
+       config={"max_seconds": 600})
+def po_aave_observable(S):
+    """'positions and debts exactly as before' as a user observes them: the supplies / borrows listings, their values, the health
+    factor and the market balance READ THROUGH THE MARKET (memoised views included) before the call and after a rejected call."""
+    from .aave_common import read_views
+    w = _aave(S)
+    m = w.market
+    which = S.int("which_operation", 0, 2)
+    a = S.dec("amount", None, None)
+    before = dump(read_views(m))
+    try:
+        if which == 0:
+            m.withdraw(w.op, a)
+        elif which == 1:
+            m.change_collateral(w.op, S.bool("flag"))
+        else:
+            m.repay(w.op, a, True, w.op)
+    except REJECT:
+        S.cover("rejected")
+        S.unchanged("rejected-operation-leaves-the-observable-views-intact", before, dump(read_views(m)))
+
+
 # ================================================================================================ Deribit
 DERIBIT_SHAPES = {"quick": [{"n": 2, "held": True, "state": "open", "ts": "open"}, {"n": 2, "held": False, "state": "open", "ts": "open"},
                             {"n": 1, "held": True, "state": "closed", "ts": "open"}, {"n": 2, "held": True, "state": "open", "ts": "closed"}],
